@@ -321,3 +321,44 @@ def opaque_spec(name, argsorts, ressort, body, res_wrap):
     fn.__name__ = name
     REG.specfuncs[name] = fn
     return F
+
+
+_UF = {}
+
+
+@REG.specfunc()
+def uf(ex, p, name, *args):
+    """uninterpreted library function over boxed arguments (result: a dynamic value)"""
+    nm = z3.simplify(name.t).as_string()
+    key = (nm, len(args))
+    if key not in _UF:
+        _UF[key] = z3.Function("uf_" + nm.replace(".", "_"), *([Val] * len(args) + [Val]))
+    return VDyn(_UF[key](*[box(ex.deref(p, a)) for a in args]))
+
+
+@REG.specfunc()
+def obj(ex, p, e):
+    """HDF5 object of an entity / data view: gid(e._h5group)"""
+    h = field(ex, p, e, VStr("_h5group"))
+    return gid(ex, p, h)
+
+
+_H5REF = z3.Function("h5_refuses", IntS, z3.SeqSort(IntS), Val, BoolS)
+_H5REFW = z3.Function("h5_refuses_write", IntS, z3.SeqSort(IntS), Val, Val, Val, BoolS)
+
+
+@REG.specfunc()
+def h5_refuses(ex, p, ds, idx):
+    """h5py raises for this selection on this dataset (depends on the shape; assumed: never for in-range
+    ints and slices of step >= 1 with 0 <= start, stop <= extent)"""
+    return VBool(_H5REF(ds.t, p.sigma["dshape"][ds.t], box(ex.deref(p, idx))))
+
+
+@REG.specfunc()
+def h5_refuses_write(ex, p, ds, idx, data):
+    return VBool(_H5REFW(ds.t, p.sigma["dshape"][ds.t], p.sigma["dtype"][ds.t], box(ex.deref(p, idx)), box(ex.deref(p, data))))
+
+
+@REG.specfunc()
+def store_data(ex, p, arr, o, v):
+    return VOpaqueTerm(z3.Store(arr.t, o.t, box(v)))
